@@ -23,11 +23,16 @@ PROP = dict(
                        "Comdex.C06.keeper_withdraw_at_most_prorata_minus_fee", "Comdex.C06.keeper_last_share_gets_all",
                        "Comdex.C06.keeper_exec_total", "Comdex.C06.keeper_reserves_per_share_nondecreasing",
                        "Comdex.C06.keeper_batch_reserves_per_share", "Comdex.C06.keeper_deposit_and_farm",
-                       "Comdex.C06.keeper_unfarm_and_withdraw"],
+                       "Comdex.C06.keeper_unfarm_and_withdraw",
+                       "Comdex.C06.ranged_price_within_endpoints_fixed_translation",
+                       "Comdex.C06.ranged_price_monotone_fixed_translation", "Comdex.C06.rederive_is_fresh_pool",
+                       "Comdex.C06.rederive_same_iff_translation_fixpoint",
+                       "Comdex.C06.rederive_moves_endpoint_counterexample"],
     harness_tests=["TestC06", "TestC06Keeper"],
     monitors=["deposit_no_panic", "deposit_takes_at_most_offered", "deposit_rate_not_better", "deposit_reserves_per_share",
               "withdraw_no_panic", "withdraw_at_most_prorata", "withdraw_reserves_per_share", "last_share_gets_all",
               "ranged_price_in_range", "ranged_create_takes_at_most_offered",
+              "ranged_fixed_translation_kept", "ranged_price_within_own_endpoints", "ranged_rederive_is_fresh",
               "keeper_withdraw_prorata", "keeper_last_share", "keeper_deposit_rate", "keeper_reserves_per_share",
               "keeper_failed_moves_nothing", "keeper_transfers_match_records", "keeper_batch_reserves_consistent",
               "keeper_fee_in_range"],
